@@ -51,7 +51,7 @@ func main() {
 
 func cases(tier string) int {
 	if tier == "thorough" {
-		return 6000
+		return 40000
 	}
 	return 1500
 }
